@@ -66,7 +66,16 @@ struct Hdr { long kind; Q s; long nt, ce, dc, ml, ar; Mat A; std::vector<std::pa
 template <class AMG> static void set_prm(typename AMG::params &p, const Hdr &h) {
     p.coarse_enough = (unsigned)h.ce; p.direct_coarse = h.dc != 0; p.max_levels = (unsigned)h.ml; p.allow_rebuild = h.ar != 0;
 }
-static const float over_interp_of_kind0 = 1.5f;
+static const float over_interp_of_kind0 = 1.5f;      // the scalar default of coarsening::aggregation
+// over_interp of a case: plain aggregation (kind 0) carries s = float(1/over_interp) in its op line, s in {1, 11184811/16777216, 1/2}
+// (over_interp 1, 1.5 = scalar default, 2 = block default); the other coarsenings have no such parameter (s = 1)
+static float over_of(const Hdr &h) {
+    if (h.kind != 0) { if (!(h.s.v == Q(1).v)) throw bad_input("s"); return 1.f; }
+    if (h.s.v == Q(1).v) return 1.f; if (h.s.v == Q(1 / 1.5f).v) return 1.5f; if (h.s.v == Q::frac(1, 2).v) return 2.f;
+    throw bad_input("s");
+}
+// generator: mostly the default
+static Q pick_s(Rng &rng, long kind) { if (kind != 0) return Q(1); long k = rng.range(0, 5); return k <= 2 ? Q(1 / 1.5f) : k <= 4 ? Q(1) : Q::frac(1, 2); }
 
 template <class AMG> static void dump(Line &l, AMG &amg) {
     auto &lv = amgcl_verif::access::levels(amg);
@@ -154,7 +163,7 @@ template <template <class> class C> struct Run {
                     auto &lv = amgcl_verif::access::levels(amg); size_t q = 0;
                     for (auto &v : lv) if (v.P) { auto P0 = recorded[q].first, R0 = recorded[q].second; amgcl::backend::sort_rows(*P0); amgcl::backend::sort_rows(*R0); if (!crs_same(*v.P, *P0) || !crs_same(*v.R, *R0)) r.fail("rebuild changed a transfer operator"); ++q; }
                     // acts exactly like a fresh hierarchy assembled from A' with the retained operators
-                    g_fixed = recorded; g_fixed_pos = 0; g_fixed_kind = (int)h.kind; g_fixed_s = h.kind == 0 ? 1 / over_interp_of_kind0 : 1.f;
+                    g_fixed = recorded; g_fixed_pos = 0; g_fixed_kind = (int)h.kind; g_fixed_s = 1 / over_of(h);
                     typename FixedAMG::params fp; set_prm<FixedAMG>(fp, h); fp.relax.damping = prm.relax.damping;
                     FixedAMG fresh(*rebuilds[k].crs(), fp);
                     Rng vr(mix(77, k)); std::vector<Q> f = gen_vec(vr, h.A.n);
@@ -173,7 +182,7 @@ template <template <class> class C> struct Run {
         return r;
     }
 };
-template <> typename Run<amgcl::coarsening::aggregation>::AMG::params Run<amgcl::coarsening::aggregation>::params(const Hdr &h) { AMG::params p; set_prm<AMG>(p, h); p.coarsening.over_interp = over_interp_of_kind0; return p; }
+template <> typename Run<amgcl::coarsening::aggregation>::AMG::params Run<amgcl::coarsening::aggregation>::params(const Hdr &h) { AMG::params p; set_prm<AMG>(p, h); p.coarsening.over_interp = over_of(h); return p; }
 template <> typename Run<amgcl::coarsening::smoothed_aggregation>::AMG::params Run<amgcl::coarsening::smoothed_aggregation>::params(const Hdr &h) { AMG::params p; set_prm<AMG>(p, h); return p; }
 template <> typename Run<amgcl::coarsening::ruge_stuben>::AMG::params Run<amgcl::coarsening::ruge_stuben>::params(const Hdr &h) { AMG::params p; set_prm<AMG>(p, h); return p; }
 template <> typename Run<amgcl::coarsening::smoothed_aggr_emin>::AMG::params Run<amgcl::coarsening::smoothed_aggr_emin>::params(const Hdr &h) { AMG::params p; set_prm<AMG>(p, h); return p; }
@@ -194,6 +203,7 @@ static Hdr parse_hdr(Cur &c) {
     long L = c.nat(); if (L < 0 || L > 64) throw bad_input("L");
     for (long k = 0; k < L; ++k) { Mat P = c.mat(); Mat R = c.mat(); if (!crs_wf(*P.crs(), why) || !crs_wf(*R.crs(), why)) throw bad_input(why); h.prs.push_back({P, R}); }
     if (h.kind < 0 || h.kind > 3 || h.nt < 1 || h.ml < 1 || h.dc > 1 || h.ar > 1) throw bad_input("hdr");
+    (void)over_of(h);
     return h;
 }
 
@@ -236,7 +246,7 @@ static std::string make_line(Rng &rng, const Opts &o, bool rebuild) {
     if (rng.coin(1, 4)) h.A = unsort(rng, h.A, false);
     static const std::vector<long> ces = { 0, 1, 2, 3, 5, 8, 100 }; static const std::vector<long> mls = { 1, 2, 3, 10, 10 };
     h.ce = rng.pick(ces); h.dc = rng.coin(3, 4); h.ml = rng.pick(mls); h.ar = rebuild ? 1 : rng.coin(); h.nt = (dirichlet ? rng.coin(3, 4) : rng.coin(1, 4)) ? 17 : 1;
-    h.s = h.kind == 0 ? Q(1 / over_interp_of_kind0) : Q(1);
+    h.s = pick_s(rng, h.kind);
     // record the transfer operators by running the real coarsening once
     Result dummy = run(h, {}, false);
     Line l; l << (rebuild ? "amg_rebuild" : "amg_build") << h.kind << h.s << h.nt << h.ce << h.dc << h.ml << h.ar << h.A << (long)g_rec.size();
@@ -258,10 +268,10 @@ static void generate(Rng &rng, const Opts &o, std::vector<std::string> &lines) {
         if (rng.coin(1, 4)) h.A = unsort(rng, h.A, false);
         static const std::vector<long> ces2 = { 0, 1, 2, 3, 5, 8 }; static const std::vector<long> mls2 = { 2, 3, 10, 10 };
         h.ce = rng.pick(ces2); h.dc = rng.coin(3, 4); h.ml = rng.pick(mls2); h.ar = rng.coin(); h.nt = rng.coin(1, 4) ? 17 : 1;
-        h.s = h.kind == 0 ? Q(1 / over_interp_of_kind0) : Q(1);
+        h.s = pick_s(rng, h.kind);
         lines.push_back((Line() << "amg_full" << h.kind << h.s << h.nt << h.ce << h.dc << h.ml << h.ar << h.A << 0L << Q(0.08f) << Q(1.0f)).get());
     }
-    lines.push_back("amg_build 0 2/3 1 2 1 10 0 2 3 1 0 1 1 1 1 0");          // non-square matrix: precondition
+    lines.push_back("amg_build 0 11184811/16777216 1 2 1 10 0 2 3 1 0 1 1 1 1 0");          // non-square matrix: precondition
     lines.push_back("amg_build 9 1 1 2 1 10 0 1 1 1 0 1 0");                    // unknown coarsening kind
 }
 
